@@ -33,7 +33,9 @@
 EXTENDS Integers, Sequences, FiniteSets, TLC
 
 CONSTANTS
-    States,         \* state classes of the receiving node, e.g. {"empty", "populated"}
+    States,         \* state classes of the receiving node: "empty" (fresh genesis), "populated" (identities in
+                    \* several states, online validator, pool, invite, flip, contract; no ceremony running),
+                    \* "lottery" / "short" / "long" / "afterlong" (populated, inside that validation period)
     TxTos,          \* recipient classes of the transaction lattice
     TxPayloads,     \* payload classes
     TxAmounts,      \* amount classes
@@ -65,7 +67,7 @@ Gated == {ProposeBlock, Vote, BlocksRange, FlipBody, Push, BatchPush, Pull, Bloc
 
 ---------------------------------------------------------------------------
 (* layer "frame" *)
-Prefixes == {"ok", "zero", "short", "overmax"}          \* msgio length prefix vs. stream content
+Prefixes == {"ok", "zero", "short", "max", "overmax"}   \* msgio length prefix vs. stream content (max = the 8 MiB limit)
 Comps    == {"none", "s2", "unknown"}                   \* first byte of the frame
 Dlens    == {"ok", "larger", "huge", "badvarint"}       \* declared decompressed length vs. content
 Envs     == {"ok", "empty", "garbage", "trunc"}         \* the ProtoMsg envelope
@@ -83,7 +85,7 @@ FrameSize(c) == IF c.layer = "frame" THEN (IF c.prefix = "overmax" THEN 4 ELSE S
 \* msgio allocates the prefix length (capped at 8 MiB) before reading; s2 allocates the declared length
 ModelAlloc(c) ==
     IF c.layer # "frame" THEN 1024
-    ELSE IF c.prefix # "ok" THEN (IF c.prefix = "short" THEN SmallFrame ELSE 0)
+    ELSE IF c.prefix # "ok" THEN (CASE c.prefix = "short" -> SmallFrame [] c.prefix = "max" -> 8388608 [] OTHER -> 0)
     ELSE IF c.comp = "s2"
          THEN IF BoundedDecode /\ Declared(c) > Cmul * FrameSize(c) + Cadd THEN FrameSize(c)
               ELSE Declared(c) + FrameSize(c)
@@ -326,10 +328,10 @@ IsBlockCase(c) ==
            /\ (c.entry \in {"subchain", "fullsync"} => Len(c.devs) <= 1))
        \/ (c.hdr = "empty" /\ c.body \in {"nil", "empty", "txs"} /\ c.devs \in EmptyHdrDevs)
        \/ (c.hdr \in {"none", "both"} /\ c.body \in {"nil", "empty"} /\ c.devs = <<>> /\ c.cert = "nil")
+\* in full sync only the header (and certificate) travels; the body is fetched by its cid
 BlockExpect(c) ==
-    IF c.hdr \in {"none", "both"} \/ c.body \in {"nil", "hostile"} THEN {"rejectValidation"}
-    ELSE IF c.devs = <<>> THEN {"accept", "rejectValidation"}
-    ELSE {"accept", "rejectValidation"}
+    IF c.hdr \in {"none", "both"} \/ c.body = "hostile" \/ (c.body = "nil" /\ c.entry # "fullsync") THEN {"rejectValidation"}
+    ELSE {"accept", "ignore", "rejectValidation"}
 
 ---------------------------------------------------------------------------
 AllCases == FrameCases \cup RawCases \cup MsgCases \cup TxCases \cup BlockCases
